@@ -10,6 +10,7 @@ CONSTANTS
  FixAdded = TRUE
  FixTag = TRUE
  FixClose = TRUE
+ FixDesc = TRUE
  Fine = FALSE
 SPECIFICATION Spec
 INVARIANTS TypeOK PostAligned PostTruthful PostResolves PostNoop PostNoopIff
